@@ -89,9 +89,9 @@ def units_for(pid, quick):
         for n in range(0, 4):
             us.append(ind('exists/%d' % n, kc, obl, ('exists_impl',)))
             us.append(byc('all/%d' % n, kc, obl, ('not', 'exists')))
-        for n in (1, 2):
-            us.append(U('exists/%d k=%d full recursion' % (n, 2 if quick else 3), 'exists/%d' % n, 2 if quick else 3, obligations=obl, timeout=to))
-            us.append(U('all/%d k=%d full recursion' % (n, 2 if quick else 3), 'all/%d' % n, 2 if quick else 3, obligations=obl, timeout=to))
+        for n in (1, 2, 3):
+            us.append(U('exists/%d k=%d full recursion' % (n, 3 if quick else 4), 'exists/%d' % n, 3 if quick else 4, obligations=obl, timeout=to))
+            us.append(U('all/%d k=%d full recursion' % (n, 3 if quick else 4), 'all/%d' % n, 3 if quick else 4, obligations=obl, timeout=to))
         st = [('exists_impl: or -> and', 'exists_impl', 2, dict(obligations=('sem',), witness=False,
                                                                 mutate=('exists_impl', 'BDDEnv::<S>::or(', 'BDDEnv::<S>::and(')))]
     elif pid == 'C05':
